@@ -160,6 +160,12 @@ def real_jax(c):
             mk = dict(name=None, xtol=1e-13, absdelta=1e-15, maxiter=10, cg_kwargs=dict(name=None, **CG_KW))
             upd, _ = ovi.nonlinearly_update_samples(smp, point_estimates=pe, minimize_kwargs=mk)
             out["geovi"] = np.array([_flat(jax.tree_util.tree_map(lambda a: a[i], upd._samples), c) for i in range(len(upd))])
+            # the one-shot entry point draw_residual = linear draw + geoVI update of ±r with the same key
+            k0 = keys[0]
+            rl, _ = evi.draw_linear_residual(lh, p, k0, point_estimates=pe, cg_kwargs=CG_KW)
+            both, _ = evi.draw_residual(lh, p, k0, point_estimates=pe, cg_kwargs=CG_KW, minimize_kwargs=mk)
+            out["dr_lin"] = _flat(rl, c)
+            out["dr_both"] = np.array([_flat(jax.tree_util.tree_map(lambda a: a[i], both), c) for i in range(2)])
         elif c["model"] == "tanh":
             # genuinely non-linear, globally invertible model (t' ∈ (1, 1.25]): the geoVI sample x* must solve
             # x − e + L_e(t(x) − t(e)) = ± metric sample   (the quadratic model is not injective: no such guarantee)
@@ -344,6 +350,11 @@ def oracle(case):
                     f"(residual {np.max(np.abs(g - ms)):.3g})", dict(sig, what="geovi_equation"))
         if frozen and np.any(r["geovi_res"][:, frozen] != 0):
             return (f"point-estimated key {case['pe']} has non-zero geoVI residuals", dict(sig, what="point_estimate"))
+    if "dr_both" in r:
+        want = np.array([r["dr_lin"], -r["dr_lin"]])
+        if r["dr_both"].shape != want.shape or not np.max(np.abs(r["dr_both"] - want)) <= 1e-6 * max(1.0, np.max(np.abs(want))):
+            return ("linear model: draw_residual does not return (r, −r) for the linear residual r of the same key",
+                    dict(sig, what="draw_residual"))
     if "geovi" in r and not np.max(np.abs(r["geovi"] - res)) <= 1e-6 * max(1.0, np.max(np.abs(res))):
         return (f"linear model: the geoVI update moved the linear samples by {np.max(np.abs(r['geovi'] - res)):.3g}",
                 dict(sig, what="geovi"))
